@@ -93,13 +93,15 @@ type machine struct {
 	notes    map[string]value
 
 	// threads
-	threads           []*thread
-	cur               *thread
-	doneCh            chan interface{}
-	wg                sync.WaitGroup
-	locks             map[*value]*lockState
-	preempts          int
-	timerYields       int
+	threads     []*thread
+	cur         *thread
+	doneCh      chan interface{}
+	wg          sync.WaitGroup
+	locks       map[*value]*lockState
+	preempts    int
+	timerYields int
+	// intrinsics switched off while the real function is run per assignment of a lifted value
+	bypassIntrinsic   map[string]bool
 	clock             *symv
 	uuidN             int
 	tickBudget        int
@@ -656,7 +658,7 @@ func callSSA(m *machine, caller *frame, callpos token.Pos, fn *ssa.Function, arg
 				return callSSA(m, caller, callpos, st, args, nil)
 			}
 		}
-		if in := intrinsics[name]; in != nil {
+		if in := intrinsics[name]; in != nil && !m.bypassIntrinsic[name] {
 			fr := &frame{m: m, caller: caller, fn: fn, thr: m.cur}
 			if v, ok := in(fr, args); ok {
 				m.intrinsics[name]++
